@@ -15,11 +15,36 @@ RULE = ("grammar-derived documents (resolved and unresolved @string references, 
         "Compared: the model of the whole default pipeline (splitter, Library.add, ResolveStringReferences, RemoveEnclosing, "
         "AddEnclosing, writer) run parse->write->parse->write vs the real parse_string/write_string: both libraries (complete "
         "attributes incl. metadata) and both texts. Non-trivial = at least one entry with a field.")
-LEVEL_TEXT = "under construction"
-LEVEL_NOTE = "under construction"
+LEVEL_TEXT = ("Lean theorems (Props/C05.lean), for EVERY library / text, EVERY BibtexFormat whose indent is blanks/tabs and whose "
+              "separator is blanks/tabs/newlines (any value_column incl. 'auto', any trailing_comma) and EVERY character table "
+              "satisfying the per-character facts PrintOK: (1) written_text: the default write stack prints a writable library L "
+              "(entries, @strings, @preambles, explicit and free-text comments; values of any brace-nesting depth) as render(L); "
+              "(2) print_parse: parse_string of that text returns the same sequence of blocks with the same types, keys, field order, "
+              "values and comment/preamble/@string content; (3) reparsed_writable + fixpoint: that library is writable again and "
+              "write_string of it reproduces the text byte for byte; write_content_only; (4) parsed_writable: EVERY library "
+              "parse_string returns has stripped keys, pairwise distinct live keys and field keys, string values and no two adjacent "
+              "free-text comments (splitter + pipeline invariants), so if its blocks pass the content side conditions SideOK it is "
+              "writable; (5) content_preserved: for such a document the whole parse->write->parse->write round trip succeeds with "
+              "equal contents and equal texts. Proof: the written text is lexed block by block into a derivation of the dialect "
+              "grammar, C02's split_correct gives the blocks, Library.add is the identity on distinct keys, string resolution skips "
+              "brace-enclosed values, RemoveEnclosing strips exactly the added pair. The models of the six modules are tied to "
+              "/repo by differential execution of the full round trip on every run.")
+LEVEL_NOTE = ("Trusted: Lean kernel + 3 standard axioms; the hand-written models (Lex, Split, Interpolate incl. its Library.add fold, "
+              "Enclosing, Writer, Pipeline); the correspondence run; the PrintOK facts about CPython's \\w / isspace / lower, each "
+              "checked over all 1,114,112 code points on every run. SideOK (Lemmas/ParsedWritable.lean) is the content part of the "
+              "property's 'well-formed document' and slightly narrower than the oracle's wf5: no failed block; entry types are "
+              "\\w words fixed by lower(); entry/field/@string keys contain no delimiter, newline, '@' or backslash; every value, "
+              "preamble and explicit comment is TextOK (its own tokens are brace-balanced - hence no block-start sequence - and it "
+              "does not end in a backslash); free-text comments contain no '@'. Well-formed documents outside SideOK (a backslash "
+              "or a non-block-start '@' inside a key or free-text comment; a value such as {a}{b} whose content 'a}{b' is "
+              "unbalanced once its own enclosing is stripped) are exercised by the correspondence run and the oracle only.")
 TECHNIQUE = "Lean 4 proof + differential correspondence of the whole default pipeline"
-ASSUMPTIONS = []
-PARTIAL = []
+ASSUMPTIONS = ["PrintOK (per-character facts about \\w, str.isspace, str.lower; checked over all code points this run)",
+               "FormatOK: indent consists of blanks/tabs, block_separator of blanks/tabs/newlines",
+               "Writable L resp. SideOK for the parsed library (see LEVEL_NOTE)"]
+PARTIAL = ["content_preserved_grammar_full (Props/C05.lean, kept as a def, not proved): the round-trip statement for every "
+           "derivation of the dialect grammar satisfying WF5 (distinct keys, nothing ending in a backslash, \\w types). Proved is "
+           "the subclass whose parsed library passes SideOK (content_preserved); the difference is listed in LEVEL_NOTE."]
 EXHAUSTIVE = {"quick": False, "thorough": False}
 
 INDENTS = ["", " ", "\t", "    "]
@@ -56,6 +81,13 @@ def corpus():
     out = [dict(base, t=t) for t in texts]
     out.append({"t": texts[1], "indent": "    ", "col": "auto", "sep": " \n", "tc": True})
     out.append({"t": texts[2], "indent": "", "col": 17, "sep": "", "tc": True})
+    # the non-vacuity example of Props/C05.lean (exLib written with exFormat) and its edge shapes:
+    # empty entry key, zero fields with trailing comma, separator with blanks, free-text comment with delimiters
+    ex = ("@article{k1,\n  title                = {x{y{z}}},\n  averyveryverylongkey = {2020},\n}\n\n \n@string{s = {v}}\n\n \n"
+          "free text, with = and {\n\n \n@book{,\n  t                    = {w},\n}\n\n \n@preamble{x{y{z}}}\n\n \n@comment{2020}\n")
+    out.append({"t": ex, "indent": "  ", "col": "auto", "sep": "\n \n", "tc": True})
+    out.append({"t": ex, "indent": "", "col": 3, "sep": "", "tc": False})
+    out.append({"t": "@a{,}\n@b{k,\n}\nx\n@string{s = {}}", "indent": "\t", "col": "auto", "sep": " \t\n", "tc": True})
     return out
 
 
@@ -183,6 +215,35 @@ def oracle(case):
 
 def known_match(finding, case, failure):
     return False
+
+
+def extra_obligations(tier):
+    """PrintOK (Lemmas/PrintParseDefs.lean): every field is a per-character statement; each is evaluated on the
+    running CPython for all 1,114,112 code points (the quantified ones) / the named characters."""
+    import re as _re
+    w = _re.compile(r"\w")
+    blank_word, space_bad, n_blank = [], [], 0
+    for cp in range(0x110000):
+        c = chr(cp)
+        if c in " \t":                       # isBlank
+            n_blank += 1
+            if w.match(c):
+                blank_word.append(cp)
+    kw = "stringpeamblco"
+    res = [
+        ("PrintOK.word.lbrace: \\w does not match '{'", not w.match("{"), ""),
+        ("PrintOK.word.blank: no blank character (of all 1114112 code points, %d are blanks) matches \\w" % n_blank,
+         not blank_word, "offending: %r" % blank_word[:5]),
+        ("PrintOK.atWord: \\w does not match '@'", not w.match("@"), ""),
+        ("PrintOK.rbWord: \\w does not match '}'", not w.match("}"), ""),
+        ("PrintOK.spSpace/tabSpace/nlSpace: ' ', TAB, NL are isspace()", all(c.isspace() for c in " \t\n"), ""),
+        ("PrintOK.lbSpace/rbSpace: '{' and '}' are not isspace()", not "{".isspace() and not "}".isspace(), ""),
+        ("PrintOK.atLower: '@'.lower() == '@'", "@".lower() == "@", ""),
+        ("PrintOK.kw: the letters of string/preamble/comment match \\w and are their own lower()",
+         all(w.match(c) and c.lower() == c for c in kw), "letters: %s" % kw),
+    ]
+    # (the model's ASCII table satisfies the same facts by a Lean proof: printOK_ascii)
+    return res
 
 
 def describe(cases, outs):
